@@ -35,6 +35,18 @@ func c08World(k, i int64) *ref.World {
 	w := ref.NewWorld()
 	f := facts.New()
 	f.K, f.I = k, i
+	// used by the "errors-after-success" set: the key exists for even selectors only, and the
+	// slice is long enough for index 0 only when the selector is < 10
+	if k%2 == 0 {
+		f.M = map[string]int64{"k": 5}
+	} else {
+		f.M = map[string]int64{}
+	}
+	f.Arr = []int64{1}
+	if k >= 10 {
+		f.Arr = []int64{1, 2, 3}
+	}
+	f.B = k >= 10
 	w.Objs["F"] = f
 	return w
 }
@@ -73,6 +85,17 @@ var c08Sets = []c08Set{
 	}, []c08Call{
 		{"exec-i0", false, 0, 0, 10, 0}, {"exec-i1", false, 0, 1, 10, 0}, {"exec-k1", false, 1, 1, 10, 0}, {"exec-limit", false, 0, 0, 1, 0}, {"exec-cancel@4", false, 0, 0, 10, 4},
 		{"fetch-i1", true, 0, 1, 0, 0}, {"fetch-i0", true, 0, 0, 0, 0},
+	}},
+	{"errors-after-success", func() []*grl.Rule {
+		return []*grl.Rule{
+			grl.R("por", nil, `(F.M["k"] > 1) || F.I2 == 7`, "F.I2 = F.I2 + 1", `Retract("por")`),
+			grl.R("pand", grl.Sal(2), `(F.M["k"] > 1) && F.B`, "F.I = F.I + 10", `Retract("pand")`),
+			grl.R("walk", grl.Sal(-1), "F.Arr[F.I] > 0 && F.I < 4", "F.I = F.I + 1"),
+		}
+	}, []c08Call{
+		{"exec-key-present", false, 0, 0, 10, 0}, {"exec-key-missing", false, 1, 0, 10, 0}, {"exec-key-present-long-slice", false, 10, 0, 10, 0}, {"exec-key-missing-long-slice", false, 11, 0, 10, 0},
+		{"exec-key-present-limit", false, 10, 0, 2, 0}, {"exec-key-present-cancel@9", false, 10, 0, 10, 9},
+		{"fetch-key-present", true, 0, 0, 0, 0}, {"fetch-key-missing", true, 1, 0, 0, 0}, {"fetch-key-present-long", true, 10, 0, 0, 0}, {"fetch-key-missing-long", true, 11, 0, 0, 0},
 	}},
 }
 
@@ -209,7 +232,7 @@ func C08(rep *ev.Reporter, tier string) {
 		rep.Exhaustive = false
 		rep.Coverage["caps_hit"] = "time budget"
 	}
-	rep.Coverage["rule"] = fmt.Sprintf("every call history of length 2..%d over the call alphabet of each of 3 rule sets (Execute ending normally / by Complete / by action error / at the cycle limit / by cancellation at poll p / after a rule retracted itself or another; FetchMatchingRules; each with its own facts) under 3 static rule orders; states = histories, transitions = calls on the reused instance. Differential oracle: listener trace, return value and final facts of the n-th call on the reused instance equal those of the same call on a new instance. Every history has >=1 earlier call, so every one is non-trivial.", maxLen)
+	rep.Coverage["rule"] = fmt.Sprintf("every call history of length 2..%d over the call alphabet of each of 4 rule sets (the 4th has conditions that evaluate on some facts and fail with an error on others, parenthesised and shared between rules) (Execute ending normally / by Complete / by action error / at the cycle limit / by cancellation at poll p / after a rule retracted itself or another; FetchMatchingRules; each with its own facts) under 3 static rule orders; states = histories, transitions = calls on the reused instance. Differential oracle: listener trace, return value and final facts of the n-th call on the reused instance equal those of the same call on a new instance. Every history has >=1 earlier call, so every one is non-trivial.", maxLen)
 }
 
 func lastOf(s []string) string {
